@@ -73,7 +73,7 @@ Inductive event :=
 | EFdFail (id : nat)
 | EConnect (code : Z)                     (* uv_tcp_connect / uv_pipe_connect called again on the handle, and what it returned *)
 | EReopen                                 (* that call set UV_HANDLE_WRITABLE on a stream where it was clear (ghost) *)
-| EOrphan.                                (* that connect was started while finished requests awaited their
+| EOrphan (ids : list nat).               (* that connect was started while these finished requests awaited their
                                              callback in write_completed_queue (ghost) *)
 (* EFdFail: a sendmsg carrying SCM_RIGHTS failed (EAGAIN or error);
    EQ: uv_stream_get_write_queue_size after a top-level step *)
@@ -415,7 +415,7 @@ Definition UV_EALREADY : Z := (-114)%Z.
 
 (* ghost: a connect accepted while write_completed_queue is not empty (the requests in it are
    finished, their callbacks are due at the next run of the pending queue) *)
-Definition orphan (s : st) : st := match cq s with [] => s | _ :: _ => ev EOrphan s end.
+Definition orphan (s : st) : st := match cq s with [] => s | _ :: _ => ev (EOrphan (map r_id (cq s))) s end.
 
 (* uv_tcp_connect / uv_pipe_connect on a handle that already has its socket (a retry after a
    failed connect).  The connect(2) result is the next entry of [connres].
